@@ -34,12 +34,24 @@ def run(ctx):
         maxb = codec.dsdl.max_bits_body(t) // 8
         bs = codec.byte_strings(ctx.rng, valid.get(ti, []), maxb, ctx.pick(2, 6), False)
         for data, why in bs:
-            if why in ("valid", "random", "bitflip", "extended") or ctx.rng.random() < 0.3:
+            if why in ("valid", "random", "bitflip", "extended", "empty") or ctx.rng.random() < 0.5:
                 dcases.append({"ti": ti, "data": data, "why": why, "case": camp.new_case(), "null": why == "null", "priors": (0,)})
             if why in ("valid", "random", "bitflip", "truncated") and ctx.rng.random() < 0.7:
                 rcases.append({"ti": ti, "data": data, "why": why, "case": camp.new_case(), "priors": (0,)})
-    camp.des_events(dcases)
-    camp.des_events(rcases, op="R")
+    crashes = list(out.get("crash", []))
+    crashes += camp.des_events(dcases).get("crash", [])
+    crashes += camp.des_events(rcases, op="R").get("crash", [])
+    # a call that does not return (abort of a generated assertion, crash) on ONE target / option set while the same stimulus is processed by the
+    # others: the outcome depends on the target or on an option documented as an optimisation / packaging choice
+    for info, r in crashes:
+        t = camp.types[info["ti"]]
+        info = dict(info, descr=t, type=codec.dsdl.shape(t))
+        case = {k: v for k, v in info.items()}
+        case["spec"] = next((sp for sp in camp.specs if sp["name"] == info["target"]), None)
+        case["report"] = r.get("crash", "")[-800:]
+        ctx.violation(codec.signature(PROP, "cross.noret", info), "the call did not return on %s while the other targets / option sets process the same stimulus: %s"
+                      % (info["target"], (r.get("crash", "").strip().splitlines() or ["(no message)"])[-1][:200]), case)
+    ctx.cov["calls_without_return"] = len(crashes)
     rej = camp.judge()
     # des(ser(v)) = Cast(v): a decoding failure on a valid encoding also breaks the round trip
     codec.report(camp, ctx, rej, PROP, also=lambda clause, info: clause.startswith("des.") and info.get("why") == "valid")
